@@ -12,6 +12,8 @@ import contextlib
 import numpy
 from hypothesis import strategies as st
 
+from ..core import guarded
+
 ID = "C20"
 TECHNIQUE = 'exhaustive enumeration of (size,start,length,rank) + Hypothesis-generated ranges/APIs against the definition of an exact balanced partition; simulated ranks'
 LEVEL = 'Every (process count, start, length, rank) on a finite grid is enumerated completely and larger configurations are sampled with Hypothesis; blocks from _calculate_ranges and block_distributed_range/list/array (with and without return_index) are compared with the definition of a contiguous, disjoint, balanced cover, and per-rank partial sums are added and compared with the serial result.'
@@ -28,9 +30,9 @@ ASSUMPTIONS = [
     "no real MPI schedule is exercised (mpi4py is not installed)",
     "the sum reduction itself is numpy addition in the harness; a stub communicator returns each rank's partial result",
 ]
-BUDGET = {"quick": (400, 40), "thorough": (4000, 400)}
+BUDGET = {"quick": (1500, 60), "thorough": (6000, 400)}
 
-APIS = ["calc", "range", "list", "array", "list_idx", "array_idx"]
+APIS = ["calc", "range", "list", "array", "list_idx", "array_idx", "array2d", "array2d_idx"]
 
 
 def strategy(tier):
@@ -39,7 +41,7 @@ def strategy(tier):
                                                      "start": start, "length": length},
                     st.sampled_from(APIS), st.integers(1, big) | st.integers(1, 9),
                     st.integers(-1000, 100000) | st.integers(-3, 12),
-                    st.integers(0, 10 ** 7) | st.integers(0, 40))
+                    st.integers(0, 10 ** 7) | st.integers(0, 40) | st.integers(-30, 3))
     red = st.builds(lambda size, na, nk, s, which: {"kind": "reduce", "size": size, "Na": na, "Nk": nk,
                                                     "salt": s, "which": which},
                     st.integers(1, 9), st.integers(2, 5), st.integers(1, 8), st.integers(0, 999),
@@ -74,8 +76,9 @@ def partition_ok(blocks, start, stop):
     """Return None if blocks (list of [lo, hi) per rank) are an exact balanced
     partition of [start, stop), else a reason.  For an empty range every
     block must be empty; where an empty block sits is not observable."""
-    if start == stop:
-        return None if all(lo == hi for lo, hi in blocks) else "non-empty block for an empty range"
+    if stop <= start:
+        # empty (or reversed, hence empty) range: every block must be empty as a range(lo, hi)
+        return None if all(hi <= lo for lo, hi in blocks) else "non-empty block for an empty range"
     if blocks[0][0] != start:
         return "first block starts at %d, not %d" % (blocks[0][0], start)
     if blocks[-1][1] != stop:
@@ -139,12 +142,12 @@ def _range(case, ctx):
     api, size, start, length = case["api"], case["size"], case["start"], case["length"]
     if api != "calc" and api != "range":
         start = 0
-        length = min(length, 300)
+        length = max(0, min(length, 300))
     if api == "range":
         length = min(length, 5000)
     stop = start + length
-    ctx.label("api=" + api, "size>=2" if size >= 2 else "size=1", "empty" if length == 0 else
-              ("short" if length < size else "long"))
+    ctx.label("api=" + api, "size>=2" if size >= 2 else "size=1",
+              "reversed" if length < 0 else ("empty" if length == 0 else ("short" if length < size else "long")))
     ctx.mark_nontrivial(size >= 2 and length >= 1)
     where = api + "/" + ("start0" if start == 0 else "startN")
     if api == "calc":
@@ -170,6 +173,10 @@ def _range(case, ctx):
         data = list(range(100, 100 + length))
     elif api in ("array", "array_idx"):
         data = numpy.arange(100, 100 + length)
+    elif api in ("array2d", "array2d_idx"):
+        # distributed over the first axis; rows are identified by their first element
+        width = 2 + (case["start"] % 4)
+        data = numpy.arange(100, 100 + length).reshape(length, 1) + 1000 * numpy.arange(width).reshape(1, width)
     for r in range(size):
         with simulated(size, r):
             if api == "range":
@@ -180,11 +187,22 @@ def _range(case, ctx):
                 got.append([(int(i), int(v)) for i, v in parallel.block_distributed_list(data, return_index=True)])
             elif api == "array":
                 got.append([int(v) for v in parallel.block_distributed_array(data)])
+            elif api == "array2d":
+                ok, blk = guarded(ctx, "partition", lambda: parallel.block_distributed_array(data), where, size=size)
+                if not ok:
+                    return
+                got.append([int(row[0]) for row in blk])
+            elif api == "array2d_idx":
+                ok, blk = guarded(ctx, "partition", lambda: parallel.block_distributed_array(data, return_index=True),
+                                  where, size=size)
+                if not ok:
+                    return
+                got.append([(int(i), int(row[0])) for i, row in blk])
             else:
                 got.append([(int(i), int(v)) for i, v in parallel.block_distributed_array(data, return_index=True)])
     if api == "range":
         whole = list(range(start, stop))
-    elif api in ("list", "array"):
+    elif api in ("list", "array", "array2d"):
         whole = list(range(100, 100 + length))
     else:
         whole = [(i, 100 + i) for i in range(length)]
